@@ -1,5 +1,11 @@
-"""C10 -- reader-writer lock (structural part)."""
-from abtverif import seq
+"""C10 -- reader-writer lock (structural part).
+
+Phrased over canonical facts: tests are identified by `Record::field` labels (polarity and local names do
+not matter), the error code of the wait by *what it holds* (the result of ABTI_cond_wait or the initial
+ABT_SUCCESS), accesses of the protected state by `rd`/`st` tokens."""
+import re
+
+from abtverif import canon, seq
 from abtverif.seq import idx, is_call, show, has_if
 from . import common, C04, C05
 
@@ -25,6 +31,52 @@ RULES_DOC.update({
 VARIANTS = ["simple_mutex", "active_wait"]
 MX = "&ABTI_rwlock::mutex"
 CV = "&ABTI_rwlock::cond"
+WF, RC = "ABTI_rwlock::write_flag", "ABTI_rwlock::reader_count"
+
+
+def _holds_wait_result(F, name):
+    """Is `name` a local of F that is only ever assigned 0 (ABT_SUCCESS) or the result of ABTI_cond_wait,
+    at least once the latter?  (Flow-insensitive; used when too many definitions reach a test for the
+    canonical label to enumerate them.)"""
+    if any(p["n"] == name for p in F.params):
+        return False
+    vals = []
+    for nd in F.nodes:
+        if not nd:
+            continue
+        for v, rhs in canon._assigned_var(F, nd):
+            if v == name:
+                vals.append(rhs)
+    ok = bool(vals)
+    waits = 0
+    for rhs in vals:
+        if not isinstance(rhs, int) or rhs < 0:
+            ok = False
+            continue
+        rn = F.nodes[F.strip(rhs)]
+        if rn.get("k") == "call" and rn.get("fn") == "ABTI_cond_wait":
+            waits += 1
+        elif not (rn.get("cv") == 0 and rn.get("k") != "ref"):
+            ok = False
+    return ok and waits >= 1
+
+
+def _cond(t, F=None, node=None):
+    """Canonical labels: 'writer' = write_flag != 0, 'readers' = reader_count != 0, 'wait-err' = the error
+    code of the last ABTI_cond_wait (or the initial ABT_SUCCESS) != 0.  Constant tests (`if (1 && ...)` of
+    the error-check macros) are dropped; every other test keeps its canonical text."""
+    if t == WF:
+        return "writer"
+    if t == RC or t == "0 < " + RC:
+        return "readers"
+    if t in ("0", "1"):
+        return None
+    alts = t[1:-1].split(" | ") if t.startswith("{") and t.endswith("}") else [t]
+    if any(a.startswith("ABTI_cond_wait(") for a in alts) and all(a == "0" or a.startswith("ABTI_cond_wait(") for a in alts):
+        return "wait-err"
+    if F is not None and re.match(r"^\w+$", t) and _holds_wait_result(F, t):
+        return "wait-err"
+    return "other:" + t
 
 
 def _held(toks, i):
@@ -39,8 +91,8 @@ def _held(toks, i):
 
 def _sel():
     return seq.Sel(calls={"ABTI_mutex_lock", "ABTI_mutex_unlock", "ABTI_cond_wait", "ABTI_cond_broadcast"},
-                   fields={"reader_count", "write_flag"},
-                   conds=lambda t: True, locks=False)
+                   fields={"reader_count", "write_flag"}, reads={WF, RC},
+                   conds=_cond, locks=False, canon=True)
 
 
 def rule_R1_R2(P, rep):
@@ -51,7 +103,8 @@ def rule_R1_R2(P, rep):
         waits_seen = False
         for toks, kind, rv, rtxt in ps:
             why1, why2 = [], []
-            acc = [i for i, t in enumerate(toks) if (t[0] == "if" and ("write_flag" in t[1] or "reader_count" in t[1])) or t[0] == "st"]
+            acc = [i for i, t in enumerate(toks) if (t[0] == "if" and (t[1] in ("writer", "readers") or WF in t[1] or RC in t[1])) or
+                   t[0] in ("st", "rd")]
             locked = [i for i, t in enumerate(toks) if t[0] == "call" and t[1] == "ABTI_mutex_lock"]
             if not locked:
                 if rv == 0 or acc:
@@ -74,18 +127,18 @@ def rule_R1_R2(P, rep):
                 if not _held(toks, w):
                     why2.append("cond wait without the mutex")
             stores = [t for t in toks if t[0] == "st"]
-            conds = [t for t in toks if t[0] == "if" and t[1] in ("p_rwlock->write_flag", "p_rwlock->reader_count")]
+            conds = [t for t in toks if t[0] == "if" and t[1] in ("writer", "readers")]
             # every condition evaluated while the mutex is held must be one of the documented wait conditions
-            allowed = {"p_rwlock->write_flag", "abt_errno == 0", "abt_errno != 0"} | ({"p_rwlock->reader_count"} if writer else set())
-            extra = sorted(set(t[1] for i, t in enumerate(toks) if t[0] == "if" and _held(toks, i) and t[1] not in allowed
-                               and not t[1].startswith("__builtin") and t[1] not in ("0", "1")))
+            allowed = {"writer", "wait-err"} | ({"readers"} if writer else set())
+            extra = sorted(set(t[1][6:] if t[1].startswith("other:") else RC for i, t in enumerate(toks)
+                               if t[0] == "if" and _held(toks, i) and t[1] not in allowed))
             if extra:
                 why2.append("%s also waits on %s (a %s must wait %s)" % (
                     "writer" if writer else "reader", extra, "writer" if writer else "reader",
                     "only for write_flag or reader_count" if writer else "only while a writer holds the lock"))
-            if any(t[1] == "p_rwlock->reader_count" for t in conds) and not writer:
+            if any(t[1] == "readers" for t in conds) and not writer:
                 why2.append("a reader waits for other readers")
-            if writer and not any(t[1] == "p_rwlock->reader_count" for t in conds) and \
+            if writer and not any(t[1] == "readers" for t in conds) and \
                     all(t[2] is False for t in conds):
                 why2.append("a writer does not test reader_count")
             if rv == 0:
@@ -96,16 +149,16 @@ def rule_R1_R2(P, rep):
                 else:
                     st = [i for i, t in enumerate(toks) if t[0] == "st"][0]
                     # the last evaluation of the wait condition before the store must be false for every conjunct
-                    last_flag = [t for t in toks[:st] if t[0] == "if" and t[1] == "p_rwlock->write_flag"]
+                    last_flag = [t for t in toks[:st] if t[0] == "if" and t[1] == "writer"]
                     if not last_flag or last_flag[-1][2] is not False:
                         why2.append("lock granted while write_flag may be set")
                     if writer:
-                        last_rc = [t for t in toks[:st] if t[0] == "if" and t[1] == "p_rwlock->reader_count"]
+                        last_rc = [t for t in toks[:st] if t[0] == "if" and t[1] == "readers"]
                         if not last_rc or last_rc[-1][2] is not False:
                             why2.append("write lock granted while readers may hold the lock")
                     if waits and waits[-1] > st:
                         why2.append("waits after taking the lock")
-                    if not has_if(toks[:st], "abt_errno == 0", True) and waits:
+                    if not has_if(toks[:st], "wait-err", False) and waits:
                         why2.append("state changed without testing the wait's error code")
             else:
                 if stores:
@@ -126,7 +179,7 @@ def rule_R3(P, rep):
         stores = [(i, t) for i, t in enumerate(toks) if t[0] == "st"]
         bc = idx(toks, is_call("ABTI_cond_broadcast"))
         un = [i for i, t in enumerate(toks) if t[0] == "call" and t[1] == "ABTI_mutex_unlock"]
-        if has_if(toks, "p_rwlock->write_flag", True):
+        if has_if(toks, "writer", True):
             k = "writer"
             want = ("ABTI_rwlock::write_flag", "=", 0)
         else:
